@@ -355,7 +355,13 @@ class Report:
         if gen_failed:
             self.unchecked('translator', gen_failed)
             return False
-        ok, log = make(targets or ['props/%s.vo' % prop_file])
+        tg = list(targets or ['props/%s.vo' % prop_file])
+        # the Q -> R transfer theorems (the vm_compute runs at Q are evaluations of the R-models) are rebuilt with every
+        # property whose correspondence executes a Q instance; their axioms are listed in the thorough tier
+        has_transfer = os.path.exists(os.path.join(COQ, 'props', 'Prop_Transfer.v')) and self.pid not in ('C04', 'C05', 'C16')
+        if has_transfer:
+            tg.append('props/Prop_Transfer.vo')
+        ok, log = make(tg)
         if not ok:
             m = re.search(r'File "([^"]+)", line (\d+)', log)
             where = '%s:%s' % (m.group(1), m.group(2)) if m else '?'
@@ -379,6 +385,20 @@ class Report:
             self.unchecked('assumptions:%s' % prop_file, 'missing theorems in Print Assumptions output: %r' % (set(names) - set(res)))
             return False
         self.discharged += len(names)
+        if has_transfer:
+            tn = theorem_names('Prop_Transfer')
+            self.extra['transfer_theorems_rebuilt'] = len(tn)
+            if self.tier == 'thorough':
+                res2, out2 = print_assumptions('Prop_Transfer')
+                if res2 is None:
+                    self.unchecked('assumptions:Prop_Transfer', out2[-1500:])
+                    return False
+                for thm, axs in res2.items():
+                    for a in axs:
+                        self.axioms.add(a)
+                        if a not in ALLOWED_AXIOMS and not a.startswith(STDLIB_PRIMITIVE_PREFIXES):
+                            self.unchecked('axioms:Prop_Transfer', '%s depends on %s' % (thm, a))
+                            return False
         return True
 
     # -- correspondence layer
